@@ -36,8 +36,9 @@ Record sub_rec := mkSubRec {
   sr_rap : bool; sr_nolocal : bool }.
 
 (* storage.Message.  [mr_key] is the ID field; [mr_fh] the fixed header; [mr_props] the publish
-   properties copied verbatim (content type, response topic, correlation data, subscription
-   identifiers, topic alias, user properties). *)
+   properties (content type, response topic, correlation data, subscription identifiers, user
+   properties, topic alias): copied verbatim except the topic alias, which Properties.Copy(false)
+   resets to 0 (an alias only has a meaning on the connection it was sent on). *)
 Record msg_rec := mkMsgRec {
   mr_key : bytes; mr_client : bytes; mr_origin : bytes; mr_pid : N; mr_fh : val; mr_topic : bytes;
   mr_payload : bytes; mr_sent : N; mr_created : N;
@@ -129,16 +130,23 @@ Inductive wr :=
 | WSet (t : rtype) (suffix : bytes) (v : srec)
 | WDel (t : rtype) (suffix : bytes).
 
+(* pk.Properties.Copy(false): the topic alias (last element of the properties) is not carried over *)
+Definition strip_alias (props : val) : val :=
+  match props with
+  | VL [ct; rt; cd; si; us; VN _] => VL [ct; rt; cd; si; us; VN 0]
+  | _ => props
+  end.
+
 Definition sub_record (cid : bytes) (s : subscription) (reason : N) : sub_rec :=
   mkSubRec [] cid (su_filter s) (su_identifier s) (su_rh s) reason (su_rap s) (su_nolocal s).
 
 Definition retained_record (cid : bytes) (p : pkt) : msg_rec :=
   mkMsgRec [] cid (p_origin p) 0 (p_fh p) (p_topic p) (p_payload p) 0 (p_created p)
-           (p_pf p) (p_pf_flag p) (p_mei p) (p_props p).
+           (p_pf p) (p_pf_flag p) (p_mei p) (strip_alias (p_props p)).
 
 Definition inflight_record (cid : bytes) (p : pkt) (sent : N) : msg_rec :=
   mkMsgRec [] cid (p_origin p) (p_pid p) (p_fh p) (p_topic p) (p_payload p) sent (p_created p)
-           (p_pf p) (p_pf_flag p) (p_mei p) (p_props p).
+           (p_pf p) (p_pf_flag p) (p_mei p) (strip_alias (p_props p)).
 
 Definition wr_of (a : awr) : wr :=
   match a with
